@@ -273,12 +273,7 @@ use mina::prelude::*;
 
 pub struct Absent;
 pub trait NoSetter: Sized {
-    fn f0<X>(self, _x: X) -> Absent { Absent }
-    fn f1<X>(self, _x: X) -> Absent { Absent }
-    fn f2<X>(self, _x: X) -> Absent { Absent }
-    fn f3<X>(self, _x: X) -> Absent { Absent }
-    fn f4<X>(self, _x: X) -> Absent { Absent }
-    fn f5<X>(self, _x: X) -> Absent { Absent }
+NOSETTER_METHODS
 }
 impl<T> NoSetter for T {}
 pub trait Presence { fn present(&self) -> bool; }
@@ -312,6 +307,39 @@ pub fn ref_pos(t: f64) -> f64 {
     if r == 0.0 && q >= 1.0 { 1.0 } else { r / 2.0 }
 }
 "#;
+
+fn prelude() -> String {
+    let methods: String = (0..40).map(|i| format!("    fn f{i}<X>(self, _x: X) -> Absent {{ Absent }}\n")).collect();
+    PRELUDE.replace("NOSETTER_METHODS\n", &methods)
+}
+
+/// Structs with many fields (two-digit field indices, more fields than any small bound): 8, 12, 20, 33
+/// fields x marker patterns {none, all, even, first only, last only, one in the middle} x {local, remote}.
+fn wide_shapes() -> Vec<Shape> {
+    let mut v = vec![];
+    for &n in &[8usize, 12, 20, 33] {
+        for pat in 0..6usize {
+            for remote in [false, true] {
+                let mid = if n > 10 { 10 } else { n / 2 };
+                let fields = (0..n)
+                    .map(|i| {
+                        let a = match pat {
+                            0 => false,
+                            1 => true,
+                            2 => i % 2 == 0,
+                            3 => i == 0,
+                            4 => i == n - 1,
+                            _ => i == mid,
+                        };
+                        (i % 6, a, i % 3)
+                    })
+                    .collect();
+                v.push(Shape { fields, vis: n % 3, remote, deco: (0..n).map(|i| if i % 4 == 1 { 1 } else { 0 }).collect(), sdeco: 0, modpath: false });
+            }
+        }
+    }
+    v
+}
 
 fn gen_module(id: usize, sh: &Shape) -> String {
     let n = sh.fields.len();
@@ -403,7 +431,7 @@ fn layer_b(sel: &[Shape], sink: &mut VSink) -> (u64, u64) {
     let bins: Vec<String> = (0..nbins).map(|i| format!("c17b_{i}")).collect();
     let dir = prepare_crate("c17b", &bins);
     for (bi, b) in bins.iter().enumerate() {
-        let mut src = String::from(PRELUDE);
+        let mut src = prelude();
         let mut calls = String::new();
         for (i, sh) in sel.iter().enumerate() {
             if i % nbins != bi {
@@ -516,6 +544,12 @@ pub fn run(run: Run) -> ! {
         acc.shapes += 1;
         check_shape(sh, (9u64 << 40) | i as u64, &mut acc.sink);
     }
+    // wide structs (Layer A: all; Layer B: three in quick, all in thorough)
+    let wides = wide_shapes();
+    for (i, sh) in wides.iter().enumerate() {
+        acc.shapes += 1;
+        check_shape(sh, (10u64 << 40) | i as u64, &mut acc.sink);
+    }
     // Layer B selection: all (types x attribute subsets) with <= 2 fields, visibility/remote rotating (quick) or
     // all combinations (thorough), plus larger shapes at a stride
     let mut sel: Vec<Shape> = vec![];
@@ -549,6 +583,12 @@ pub fn run(run: Run) -> ! {
             sel.push(sh.clone());
         }
     }
+    for (i, sh) in wides.iter().enumerate() {
+        // quick: 12 fields / even markers / local, 33 fields / no marker / local, 12 fields / one marker at f10 / remote
+        if thorough || i == 16 || i == 36 || i == 23 {
+            sel.push(sh.clone());
+        }
+    }
     let shapes_a = acc.shapes;
     let (compiled, checks) = layer_b(&sel, &mut acc.sink);
     let mut cov = Map::new();
@@ -559,7 +599,7 @@ pub fn run(run: Run) -> ! {
     cov.insert("programs_compiled".into(), json!(compiled));
     cov.insert("evaluations".into(), json!(shapes_a + checks));
     cov.insert("distinct_nontrivial".into(), json!(shapes_a));
-    cov.insert("rule".into(), json!(format!("Layer A (in-process expansion of the real derive source, parsed as a syn::File): ALL struct shapes with {} fields over types {{f32,f64,u8,i16,i32,u32}} x every #[animate] subset x struct visibility {{private,pub,pub(crate)}} (field visibilities rotated) x {{local, #[animate(remote = ...)] proxy (bare identifier or module-qualified path)}}, with doc comments / #[allow] / #[cfg] attributes before or after the #[animate] marker and on the struct (rotated over all shapes, and exhaustively for 1..2 fields); oracle: animated field set = attributed fields, or all if none is attributed; the keyframe builder has exactly one public setter per animated field with the field's type, keyframe data and t_<field> sub-timelines likewise, keyframe_from / values_from / update / start_with touch exactly the animated fields and are wired name-to-name, Target is the (remote) type, visibility copied, accessors forwarded to the time scale. Layer B: {} shapes compiled with the real derive: setter presence observed at run time (inherent-vs-trait method resolution), keyframe_from copies exactly the animated fields, un-animated fields keep sentinels, every animated field interpolates per a linear reference on a 41-point time grid (in every other shape each (position, field) is its own keyframe, so keyframes share positions) (delay, two cycles, after the end), metadata accessors return the configured values ({} run-time checks)", if thorough { "1..5 (6 types) and 6 (3 types)" } else { "1..4" }, compiled, checks)));
+    cov.insert("rule".into(), json!(format!("Layer A (in-process expansion of the real derive source, parsed as a syn::File): ALL struct shapes with {} fields over types {{f32,f64,u8,i16,i32,u32}} x every #[animate] subset x struct visibility {{private,pub,pub(crate)}} (field visibilities rotated) x {{local, #[animate(remote = ...)] proxy (bare identifier or module-qualified path)}}, with doc comments / #[allow] / #[cfg] attributes before or after the #[animate] marker and on the struct (rotated over all shapes, and exhaustively for 1..2 fields), plus 48 WIDE structs (8, 12, 20, 33 fields x markers none/all/even/first/last/one-in-the-middle x local/remote; three of them compiled in quick, all in thorough); oracle: animated field set = attributed fields, or all if none is attributed; the keyframe builder has exactly one public setter per animated field with the field's type, keyframe data and t_<field> sub-timelines likewise, keyframe_from / values_from / update / start_with touch exactly the animated fields and are wired name-to-name, Target is the (remote) type, visibility copied, accessors forwarded to the time scale. Layer B: {} shapes compiled with the real derive: setter presence observed at run time (inherent-vs-trait method resolution), keyframe_from copies exactly the animated fields, un-animated fields keep sentinels, every animated field interpolates per a linear reference on a 41-point time grid (in every other shape each (position, field) is its own keyframe, so keyframes share positions) (delay, two cycles, after the end), metadata accessors return the configured values ({} run-time checks)", if thorough { "1..5 (6 types) and 6 (3 types)" } else { "1..4" }, compiled, checks)));
     cov.insert("exhaustive".into(), json!(true));
     cov.insert("compiled_runtime_checks".into(), json!(checks));
     cov.insert("samples".into(), json!(acc.samples));
